@@ -150,6 +150,16 @@ func restorePieces(
 	} else if err != nil {
 		return nil, 0, fmt.Errorf("get or set piece metadata: %s", err)
 	}
+	if len(md.pieces) != numPieces {
+		// The status file does not describe this torrent, e.g. the process died
+		// after creating it but before writing it. Nothing in it can be trusted,
+		// so start over with every piece empty.
+		md = newPieceStatusMetadata(pieces)
+		if _, err := cads.Download().SetMetadata(d.Hex(), md); err != nil {
+			return nil, 0, fmt.Errorf("reset piece metadata: %s", err)
+		}
+		return pieces, 0, nil
+	}
 	for _, p := range md.pieces {
 		if p.status == _complete {
 			numComplete++
